@@ -11,7 +11,8 @@ canonical (`binaryExpr_canonical`, `applyUnary_canonical`); the extracted predic
 comparisons (`table_is_rank_order`, `table_unary_is_rank_order`, by `decide` over the tables written
 from the real code).  Hence `parseChain_eq_climb`.
 
-Part 2 (literals): `dec_narrowest`, `hex_oct_value`, `neg_literal_fold`.
+Part 2 (literals): `dec_narrowest`, `dec_type_by_magnitude`, `narrowest_is_least`, `neg_literal_fold` here;
+`hex_oct_value` in `Thm/C10Lit.lean`.
 -/
 namespace RbThm.C10
 open RbModel.Expr
@@ -451,39 +452,65 @@ theorem old_predicate_not_rank_order : ¬ RankOrderB oldShouldFlip := by
 
 /-! ## Literals -/
 
+/-! ### Decimal -/
+
 /-- A run of decimal digits denotes its value with the narrowest of INTEGER, LONG, DOUBLE. -/
 theorem dec_narrowest (n : Nat) : decLit n = narrowest (n : Int) := by
-  unfold decLit narrowest
+  unfold decLit processDec narrowest
+  simp only [Bool.false_eq_true, if_false]
   repeat' split
   all_goals first | rfl | omega
 
-/-- Full-strength statement: negating a narrowest-typed literal gives the narrowest-typed literal of
-the negated value. -/
-def NegLiteralFoldFull : Prop := ∀ v : Int, negLit (narrowest v) = narrowest (-v)
+/-- The same, read off the type: INTEGER exactly up to 32767, LONG exactly from 32768 to 2147483647,
+DOUBLE above; the value is always the written one. -/
+theorem dec_type_by_magnitude (n : Nat) :
+    (n ≤ 32767 → decLit n = .int n) ∧ (32767 < n → n ≤ 2147483647 → decLit n = .long n)
+      ∧ (2147483647 < n → decLit n = .double n) := by
+  rw [dec_narrowest]
+  unfold narrowest
+  refine ⟨fun h => ?_, fun h1 h2 => ?_, fun h => ?_⟩
+  · rw [if_pos (by omega)]
+  · rw [if_neg (by omega), if_pos (by omega)]
+  · rw [if_neg (by omega), if_neg (by omega)]
 
-/-- It fails at exactly one value on the repaired tree: `-2147483648` is folded to a DOUBLE
-(`2147483648` is a double literal and the tree does not remember that it was written without `#`);
-known finding F3c. -/
-theorem neg_literal_fold_full_false : ¬ NegLiteralFoldFull :=
-  fun h => absurd (h 2147483648) (by decide)
+/-- `narrowest v` really is the narrowest type that holds `v`: it is INTEGER iff `v` is in the INTEGER
+range, LONG iff it is in the LONG but not in the INTEGER range, DOUBLE iff it is in neither. -/
+theorem narrowest_is_least (v : Int) :
+    (narrowest v = .int v ↔ (-32768 ≤ v ∧ v ≤ 32767))
+      ∧ (narrowest v = .long v ↔ (¬ (-32768 ≤ v ∧ v ≤ 32767) ∧ -2147483648 ≤ v ∧ v ≤ 2147483647))
+      ∧ (narrowest v = .double v ↔ ¬ (-2147483648 ≤ v ∧ v ≤ 2147483647)) := by
+  unfold narrowest
+  refine ⟨?_, ?_, ?_⟩ <;> (repeat' split) <;> simp <;> omega
 
-/-- `neg_literal_fold` with the explicit exclusion. -/
-theorem neg_literal_fold_partial (v : Int) (h : v ≠ 2147483648) :
+/-- A decimal literal written as a digit string (leading zeros allowed) is typed by its value. -/
+theorem dec_digits_narrowest (ds : List Nat) :
+    decLit (digitsVal 10 ds) = narrowest (digitsVal 10 ds : Nat) := dec_narrowest _
+
+/-- **`neg_literal_fold`, full strength.** A minus sign directly followed by decimal digits is the
+literal of the negated value with the narrowest type that holds it (`-32768` INTEGER, `-32769` LONG,
+`-2147483648` LONG, `-2147483649` DOUBLE): no excluded value (F3c repaired). -/
+theorem neg_literal_fold (n : Nat) : negDecLit n = narrowest (-(n : Int)) := by
+  unfold negDecLit processDec narrowest
+  simp only [if_true]
+  repeat' split
+  all_goals first | rfl | omega
+
+example : negDecLit 32768 = .int (-32768) ∧ negDecLit 32769 = .long (-32769)
+    ∧ negDecLit 2147483648 = .long (-2147483648) ∧ negDecLit 2147483649 = .double (-2147483649)
+    ∧ negDecLit 4294967296 = .double (-4294967296) ∧ decLit 4294967296 = .double 4294967296
+    ∧ decLit (digitsVal 10 [0, 0, 3, 2, 7, 6, 8]) = .long 32768 := by
+  decide
+
+/-- `Expression::unary_minus` applied to an already typed literal (the path of `-&H8000`, `--5`; a
+minus sign directly followed by decimal digits does not take it): the negated value with the narrowest
+type, for every value but 2147483648.  That value can only be a DOUBLE literal (`2147483648#`, or
+`2147483648` not directly after a minus sign), and the negation of a DOUBLE literal stays DOUBLE, which
+is what `-2147483648#` must be. -/
+theorem negLit_narrowest_partial (v : Int) (h : v ≠ 2147483648) :
     negLit (narrowest v) = narrowest (-v) := by
   unfold narrowest
   repeat' split
   all_goals (simp only [negLit]; repeat' split)
   all_goals first | rfl | omega | (congr 1; omega)
-
-/-- A decimal literal directly after a unary minus: value `-n`, narrowest type (`-32768` INTEGER,
-`-32769` LONG, `-2147483649` DOUBLE), except `-2147483648`. -/
-theorem neg_literal_fold (n : Nat) (h : n ≠ 2147483648) :
-    negLit (decLit n) = narrowest (-(n : Int)) := by
-  rw [dec_narrowest]
-  exact neg_literal_fold_partial _ (by omega)
-
-example : negLit (decLit 32768) = .int (-32768) ∧ negLit (decLit 32769) = .long (-32769)
-    ∧ negLit (decLit 2147483649) = .double (-2147483649) ∧ decLit 4294967296 = .double 4294967296 := by
-  decide
 
 end RbThm.C10
